@@ -321,6 +321,17 @@ def clamp_rule(chk, db):
             construct = "%s :: %s" % (astx.sig(f), astx.show(x, 70))
             chk.instance("CLAMP")
             ok = rr == measured
+            # direction: the length is replaced exactly when it exceeds what is left (`n > rem ? X : n`, `n < rem ? n : X`)
+            n_left = sides[0] is var[0]
+            op = c["op"] if n_left else {">": "<", ">=": "<=", "<": ">", "<=": ">="}[c["op"]]
+            kept_in_then = arms[0] is keep[0]
+            if ok and ((op in (">", ">=")) == kept_in_then):
+                chk.obligation("CLAMP", construct, False)
+                chk.violation("CLAMP", construct, "clamp-direction", "%s: the length `%s` is replaced when it is %s than what is left of `%s` and kept "
+                              "otherwise; a clamp replaces it when it is larger" % (astx.loc(f, x), var[0]["n"],
+                                                                                     "smaller" if op in ("<", "<=") else "not larger", measured),
+                              {"where": astx.loc(f)})
+                continue
             chk.obligation("CLAMP", construct, ok)
             if not ok:
                 chk.violation("CLAMP", construct, "clamp-other-object", "%s: the test measures what is left of `%s` but the length is replaced by the "
@@ -403,6 +414,8 @@ def run(chk, tier):
     from ..rules import sibs as _SB
     _SB.check(chk, db, ['_string/basic_inplace_string', '_strings/find', '_strings/rfind'])      # SIB: cv/ref-qualified overloads of one member agree
     _SB.positive_control(chk)
+    from ..rules import iters as _ITE
+    _ITE.erase_count_area(chk, db, ['_string/basic_inplace_string'])      # ERASECNT: erase / erase_if return the number of erased elements
     plain = D.load("plain")
     with open(c05.SPEC) as fh:
         table = json.load(fh)["entries"]
